@@ -107,7 +107,9 @@ def run(rep):
     need = ["Read", "ReadNOp", "Read1N", "Read1All", "ReadInto", "Stream", "ChunkedOp", "Iter", "Preload", "Dispose",
             "NextRequest"]
     base = dict(sc=sc, dk="AllDamage", amts="A27", amts1="A7", into="A3", gen="A27", maxops=3)
-    plans = [("repaired design, damaged responses", dict(base, sc="ScC13", maxops=3 if quick else 4, _cov=True, _need=need), None)]
+    plans = [("repaired design, damaged responses",
+              dict(base, sc="ScC13", maxops=5, amts="A1237", amts1="A27", _cov=True, _need=need) if quick else
+              dict(base, sc="ScC13", maxops=6, after=2, amts="AFull", amts1="A1237", gen="A1237", _cov=True, _need=need), None)]
     for d in ("JustD11", "JustF1", "JustF2", "JustF3", "JustF4"):
         plans.append((f"deviation {d[4:]} exhibited", dict(base, sc="ScC13", maxops=3, kd=d), bc.DEFECT_CLAUSES[d]))
     plans.append(("liveness: an owed error arrives", dict(spec="LiveSpec", sc="ScC13Tiny", dk="AllDamage", amts="A2", amts1="A2",
